@@ -129,8 +129,10 @@ def run_scenario(chk, sc, cfgseed, ndims):
         toks = " ".join(blocks[0]).split()
         if len(set(toks)) != len(toks):
             return "an entry of the fields table is printed twice: %r" % toks
+        text = " " + " ".join(toks) + " "
         for f in fields:
-            n = sum(1 for t in toks if class_matches(t, f))
+            # a name with a blank in it is printed as several words: it is represented by that word sequence
+            n = text.count(" " + f + " ") if " " in f else sum(1 for t in toks if class_matches(t, f))
             if n != 1:
                 return "field %r is represented %d times in the fields table %r" % (f, n, toks)
         sp = " ".join(blocks[1]).split() if len(blocks) > 1 else []
@@ -272,3 +274,6 @@ def run(chk, replay):
                       "the NaN sits: propagated for %r, ignored for %r (field, mode, (level, min|max) index)" % (
                           NAN_CONVENTION["propagate"], NAN_CONVENTION["ignore"]), {"conventions": core.jdump(NAN_CONVENTION)})
     chk.extra["nan_extrema_convention_observed"] = sorted(NAN_CONVENTION)
+    # the command line layer (spec/Cli.tla): every subset of the tool's options typed to the real main(), API intercepted
+    from harness import cli
+    cli.phase(chk, "menu")
